@@ -56,7 +56,7 @@ def cases(tier, seed):
                 out.append({"spec": spec, "cfg": c, "sc": sc})
     # solve() without a start: the default start is the origin projected onto the box (boxes below exclude 0 for some variables)
     for vk in (["boxed", "lower"], ["upper", "boxed"]):
-        for shift in (1.0, -2.0):
+        for shift in (1.0, -2.0, 4.0, -4.0):
             sp = S.mk(2, "qdiag", [("affine", "ranged")], vk)
             sp = dict(sp)
             sp["var_lb"] = [v + shift if v not in ("inf", "-inf") else v for v in sp["var_lb"]]
